@@ -11,7 +11,7 @@ import (
 )
 
 // wellFormed applies the per-target well-formedness oracle to emitted files.
-func wellFormed(target, outDir string, files []string, c c11Case) *ev.Failure {
+func wellFormed(target, outDir string, files []string, complete bool) *ev.Failure {
 	lang := strings.SplitN(target, ":", 2)[0]
 	switch lang {
 	case "go":
@@ -26,7 +26,7 @@ func wellFormed(target, outDir string, files []string, c c11Case) *ev.Failure {
 			}
 		}
 		// type-check against the runtime (needs the included packages, i.e. -r or no includes)
-		if c.Recurse || len(c.P.Root().Includes) == 0 {
+		if complete {
 			prefix := ""
 			if i := strings.Index(target, "package_prefix="); i >= 0 {
 				prefix = strings.SplitN(target[i+len("package_prefix="):], ",", 2)[0]
